@@ -60,6 +60,18 @@ def run(chk):
     variants += [('(!{x}: AX {x}) | (!{x}: AG EF ({x} & v0))', ['(!{x}: AX {x}) | (!{y}: AG EF ({y} & v0))', '(!{xx}: AX {xx}) | (!{x}: AG EF ({x} & v0))', '(\\bind {a}: AX {a}) | (\\bind {b}: AG EF ({b} & v0))']),
                  ('(3{x}: @{x}: v0) & (V{x}: EF {x}) & (!{x}: EX ~{x})', ['(3{p}: @{p}: v0) & (V{q}: EF {q}) & (!{r}: EX ~{r})']),
                  ('!{x}: (3{xx}: @{xx}: EX {x}) & (V{xx}: EF {xx} | {x})', ['!{a}: (3{b}: @{b}: EX {a}) & (V{c}: EF {c} | {a})', '!{xx}: (3{x}: @{x}: EX {xx}) & (V{xxx}: EF {xxx} | {xx})'])]
+    # extended formulas written with NO whitespace wherever the grammar allows none (wild-cards / domains directly after operators)
+    ext_variants = [('EF %w% & (v0 EU %w%)', ['EF%w%&(v0 EU%w%)', 'EF %w%&(v0 EU %w%)', 'EF\t%w% &(v0 EU\n%w%)']), ('!{x} in %d%: AX (%w% | {x})', ['!{x}in%d%:AX(%w%|{x})', '!{x} in%d% :AX (%w%|{x})']),
+                    ('AG %w% | ~%w% | AX~%w%', ['AG%w%|~%w%|AX~%w%']), ('3{x} in %d%: @{x}: (AX %w% & EG {x})', ['3{x}in%d%:@{x}:(AX%w%&EG{x})'])]
+    for inst in UC.instances(['U2']):
+        for base, vs in ext_variants:
+            sess = UC.Session(inst, 1, [{'formulas': [t], 'entry': 'ext_dirty', 'phis': [('and', ('wild', 'w'), ('bind', 'x', 'd', ('true',)))]} for t in [base] + vs])
+            b0 = sess.first(0)
+            for t, i in zip(vs, range(1, len(vs) + 1)):
+                name = f'C08/native {inst.name}: {t!r} gives the same BDD as {base!r} (model_check_extended_formula_dirty)'
+                ok = b0 is not None and sess.first(i) == b0
+                chk.obligation(name, 'native', 'holds' if ok else 'violated', 0.0, True, {'base': base, 'variant': t, 'instance': inst.name})
+                if not ok: chk.violation(name, 'rewrite-result', {'base': base, 'variant': t, 'instance': inst.name, 'aeon': inst.aeon, 'answers': [{k_: v_ for k_, v_ in sess.runs[j_].items() if k_ != 'ok'} for j_ in (0, i)]}, f'{t!r} and {base!r} evaluate differently ({sess.runs[i].get("err") or sess.runs[i].get("panic") or "different sets"})')
     for inst in UC.instances(['U2', 'C2']):
         for base, vs in variants:
           for entry in ('formula_dirty', 'formula'):
